@@ -354,49 +354,63 @@ pub fn extreme_case<T: Sc>(rng: &mut Rng, idx: usize) -> StateCase<T> {
 
 pub fn stream(out: &mut Out, seed: u64, thorough: bool) {
     let mut rng = Rng::new(seed ^ 0x57A7E);
+    let mut sink = Out::new();
     let n = if thorough { 6000 } else { 300 };
     for i in 0..n {
+        let o: &mut Out = if only_allows("random") { &mut *out } else { &mut sink };
         if i % 4 == 3 {
             let c = random_state_case::<f32>(&mut rng, thorough, i);
-            emit_state_case(out, &c);
+            emit_state_case(o, &c);
         } else {
             let c = random_state_case::<f64>(&mut rng, thorough, i);
-            emit_state_case(out, &c);
+            emit_state_case(o, &c);
         }
+        sink.buf.clear();
     }
     let nr = if thorough { 1500 } else { 80 };
     for i in 0..nr {
+        let o: &mut Out = if only_allows("rankdef") { &mut *out } else { &mut sink };
         if i % 5 == 4 {
             let c = rankdef_case::<f32>(&mut rng, i);
-            emit_state_case(out, &c);
+            emit_state_case(o, &c);
         } else {
             let c = rankdef_case::<f64>(&mut rng, i);
-            emit_state_case(out, &c);
+            emit_state_case(o, &c);
         }
+        sink.buf.clear();
     }
     // histories with extreme parameters and histories with one failing model call
     let ne = if thorough { 1500 } else { 100 };
     for i in 0..ne {
+        let o: &mut Out = if only_allows("extreme") { &mut *out } else { &mut sink };
         if i % 4 == 3 {
             let c = extreme_case::<f32>(&mut rng, i);
-            emit_state_case(out, &c);
+            emit_state_case(o, &c);
         } else {
             let c = extreme_case::<f64>(&mut rng, i);
-            emit_state_case(out, &c);
+            emit_state_case(o, &c);
         }
+        sink.buf.clear();
     }
-    crate::diag::stream_part(out, &mut rng, thorough);
+    {
+        let o: &mut Out = if only_allows("diag") { &mut *out } else { &mut sink };
+        crate::diag::stream_part(o, &mut rng, thorough);
+        sink.buf.clear();
+    }
     let nf = if thorough { 1500 } else { 100 };
     for i in 0..nf {
+        let o: &mut Out = if only_allows("faulty") { &mut *out } else { &mut sink };
         let mut c = random_state_case::<f64>(&mut rng, false, i);
         c.origin = "faulty";
-        // sequential flavours: deterministic order of the derivative calls
-        c.flavour = c.flavour.seq();
+        // the failing call is the model's set_params or eval inside the problem's set_params, which is
+        // never executed in parallel: parallel flavours are as deterministic here as sequential ones
+        // (every Jacobian query makes exactly P derivative calls, in whatever order)
         while c.history.len() < 3 {
             let a: Vec<f64> = random_alpha(&mut rng, c.recipe.p());
             c.history.push(a);
         }
         let step = rng.below(c.history.len() - 1);
-        emit_faulty_state_case(out, &c, step, i % 2);
+        emit_faulty_state_case(o, &c, step, i % 2);
+        sink.buf.clear();
     }
 }
